@@ -384,6 +384,19 @@ if __name__ == "__main__":
         cmd_checks(only)
     elif cmd == "report":
         cmd_report()
+    elif cmd == "try":
+        # tools/mutate.py try <file> <k> <CHECK> [tier]: one check against one mutant
+        f, k, chk = sys.argv[2], int(sys.argv[3]), sys.argv[4]
+        tier = sys.argv[5] if len(sys.argv) > 5 else "quick"
+        d = scratch("t")
+        try:
+            new, ln, op, desc = mutate(open(os.path.join(REPO, f)).read(), k)
+            open(os.path.join(d, f), "w").write(new)
+            rc, out = sh(f"./run.py {chk} --tier {tier}", cwd=VERIF, env=dict(os.environ, VERIF_REPO=d, VERIF_NO_EVIDENCE="1"))
+            print(f"{f}:{ln} {op}: {desc} -> rc={rc}")
+            print("\n".join(l[:260] for l in out.splitlines() if l.startswith("  kind=") or "violations=" in l or "HARNESS" in l))
+        finally:
+            shutil.rmtree(d, ignore_errors=True)
     elif cmd == "show":
         f, k = sys.argv[2], int(sys.argv[3])
         orig = open(os.path.join(REPO, f)).read()
